@@ -27,6 +27,14 @@ def oracle(src, blk, rng):
     e = ox.check_edge_kinds(p)
     if e:
         return e
+    # edges stop at exit ecalls: where the finished facts say a7 is 10 or 93, nothing follows
+    facts = ox.Facts(blk)
+    for n in p.nodes:
+        if n["kind"] == "Basic" and n["inst"] == "Ecall" and n["i"] in facts.n:
+            a7 = facts.n[n["i"]]["ri"].get("17", "")
+            if a7 in ("c:10", "c:93") and n["nexts"]:
+                return (f"ecall at node {n['i']} is an exit (a7 is known to be {a7[2:]} there) but the graph "
+                        f"continues from it to {n['nexts']}")
     # nodes reported unreachable
     unreachable = set()
     for l in blk:
